@@ -79,6 +79,23 @@ func groupBounds(s *sink, g *hx.Gen) {
 				}
 				vals = append(vals, hx.Str("010"+nm[0]), hx.Str("0019"+nm[0]), hx.Str("00"+nm[0]))
 			}
+			// several components, each below 2^63, whose TOTAL lies beyond 2^64 (a sum that wraps twice is
+			// non-negative again) or just beyond 2^63
+			if len(names) >= 3 {
+				for _, num := range []int64{7, 5, 4} { // each component about num/10 of 2^63
+					str := ""
+					for i := len(names) - 1; i >= 0 && i >= len(names)-4; i-- {
+						mult, _ := new(big.Int).SetString(names[i][1], 10)
+						if mult.Sign() <= 0 {
+							continue
+						}
+						part := new(big.Int).Div(new(big.Int).Mul(new(big.Int).Lsh(big.NewInt(1), 63), big.NewInt(num)), big.NewInt(10))
+						c := new(big.Int).Div(part, mult)
+						str += c.String() + names[i][0] + " "
+					}
+					vals = append(vals, hx.Str(str))
+				}
+			}
 		}
 		vals = append(vals, hx.Uint("uint64", math.MaxUint64), hx.Uint("uint64", 1<<63), hx.F64(9.223372036854775807e18),
 			hx.F64(-9.223372036854775808e18), hx.F64(0.5), hx.F64(math.NaN()), hx.F64(math.Inf(1)), hx.Bool(true), hx.Bool(false),
@@ -109,6 +126,28 @@ func groupBounds(s *sink, g *hx.Gen) {
 						vals = append(vals, hx.Str(g.FormatUnits(t.Units, int64(f))))
 					}
 				}
+			}
+		}
+		if t.Units != nil && len(t.Units.Mults) >= 3 {
+			// several units and a fractional base count with a total beyond 2^53: every addition rounds, so the
+			// order in which the components are added shows in the last bits (it must be the declared order).
+			// Evaluated on the same schema without bounds, so that the value (not a bound) decides.
+			free := *t
+			free.Min, free.Max = nil, nil
+			for k := 0; k < 12; k++ {
+				str := ""
+				for i := len(t.Units.Mults) - 1; i >= 0; i-- {
+					m := t.Units.Mults[i]
+					c := int64(1 + g.R.Intn(999))
+					if i == len(t.Units.Mults)-1 && m.M > 0 {
+						c = (int64(1)<<uint(54+g.R.Intn(8)))/m.M + int64(g.R.Intn(1000))
+					}
+					if c > 0 {
+						str += strconv.FormatInt(c, 10) + m.Names[0]
+					}
+				}
+				str += strconv.Itoa(g.R.Intn(10)) + "." + strconv.Itoa(1+g.R.Intn(9)) + t.Units.Base[0]
+				s.emit("U", &free, hx.Str(str), nil, false, "class", "bounds:float-sum-order")
 			}
 		}
 		vals = append(vals, hx.Int("int64", math.MaxInt64), hx.Int("int64", 1<<53+1), hx.Uint("uint64", math.MaxUint64), hx.Bool(true), hx.Str("NaN"), hx.Str("Inf"), hx.Str("1e999"), hx.Str("0x1p-2"), hx.Str("1_0"), hx.Str(""), hx.Nil())
@@ -270,6 +309,39 @@ func groupObjects(s *sink, g *hx.Gen) {
 			}
 		}
 		chain(s, t, m, "objects:null")
+	}
+	// Validate and Serialize applied directly to native maps that Unserialize did NOT produce: every
+	// subset of natively typed property values (defaults not filled in), with and without an undeclared key
+	natives := map[string]any{}
+	for _, np := range t.Props {
+		pt := np.P.Ty
+		pv := g.Value(pt, hx.Env{}, 2)
+		r := hx.Guard(func() hx.Result {
+			rr, out := hx.RunOpRaw("U", pt.Build(), pv.ToGo())
+			if rr.R == "ok" {
+				natives[np.Name] = out
+			}
+			return rr
+		})
+		_ = r
+	}
+	for mask := 0; mask < 1<<n; mask++ {
+		nm := map[string]any{}
+		for i, np := range t.Props {
+			if v, ok := natives[np.Name]; ok && mask&(1<<i) != 0 {
+				nm[np.Name] = v
+			}
+		}
+		for _, extra := range []bool{false, true} {
+			if extra {
+				if mask%3 != 0 {
+					continue
+				}
+				nm["undeclared_key"] = int64(1)
+			}
+			s.emit("V", t, hx.Enc(nm), nm, true, "class", "objects:native-subset")
+			s.emit("S", t, hx.Enc(nm), nm, true, "class", "objects:native-subset")
+		}
 	}
 	// undeclared key, non-string key, shorthand
 	extra := hx.AnyAny([2]*hx.Val{hx.Str("zz"), hx.Int("int64", 1)})
